@@ -59,6 +59,11 @@ def step (s : St) (op : List String) (impl : String) : LineOut St :=
     -- a node created with a snapshot path starts with cut-offs LastEventClock+1 = LastQueryClock+1 = 1 (empty snapshot)
     | some n, some q => { state := { n := n, q := q, ev := Buf.start n 1#64 1#64, qu := Buf.start q 1#64 1#64 }, model := some "ok" }
     | _, _ => { state := s, model := some "bad-op" }
+  | ["cfgfull", n, q, _] =>
+    -- the pre-existing snapshot file holds only lines the replay skips: same start as `cfg`
+    match n.toNat?, q.toNat? with
+    | some n, some q => { state := { n := n, q := q, ev := Buf.start n 1#64 1#64, qu := Buf.start q 1#64 1#64 }, model := some "ok" }
+    | _, _ => { state := s, model := some "bad-op" }
   | ["ev", lt, h] =>
     match lt.toNat?, stringOfHex? h with
     | some lt, some name =>
